@@ -204,6 +204,8 @@ def run(tier):
                 'va-omitted': b'#define TRACE(n, ...) trace(n, #__VA_ARGS__)\nvoid trace(const char *, const char *);\nvoid f(void) { TRACE("leave"); }\n',
                 'va-omitted-2': b'#define SHOW(n, ...) <n|#__VA_ARGS__>\nSHOW(first, y z w)\nSHOW(second)\n#define V0(...) #__VA_ARGS__ __VA_ARGS__\nV0() V0(,) V0( )\n#define V2(a, b, ...) a #b #__VA_ARGS__\nV2(1, 2) V2(1) V2(1, 2, )\n',
                 'va-omitted-3': b'#define E(f, ...) f(__VA_ARGS__)\n#define S(x, ...) #x #__VA_ARGS__\nint g(); int h = E(g); const char *s = S(a); const char *t = S(a,); const char *u = S();\n',
+                'enum-forward-fixed': b'enum E : short; enum E *p; int f(void) { return *p; }\n', 'enum-forward-fixed-2': b'enum F : unsigned char; enum F g(enum F *q) { return q[1]; }\n',
+                'enum-forward-fixed-3': b'enum G : long; extern enum G v; long h(void) { return v; }\n',
                 'dots-expr': b'struct s { int a; } v; int f(void) { return v..a; }\n'}
     vfiles = []
     for k, v in variants.items():
@@ -220,7 +222,7 @@ def run(tier):
     for k, (name, path) in enumerate(files):
         mm = re.search(r'\+([a-z0-9_-]+)\.c$', path)
         t = mm.group(1) if mm else common.TARGETS[k % 3]
-        items.append((exe, name, path, t, wd, shim, k % (8 if tier == 'quick' else 6) == 0, k % 5 == 0, others))
+        items.append((exe, name, path, t, wd, shim, k % (8 if tier == 'quick' else 6) == 0 or name.startswith(('variant:', 'corpus:')), k % 5 == 0, others))
     nvg = 0
     for r in common.pmap(_case, items):
         ck.evaluations += max(r['n'], 1)
